@@ -16,6 +16,7 @@ import Cellml.Engine.Valid
 import Cellml.Engine.World
 import Cellml.Engine.Flatten
 import Cellml.Engine.Purity
+import Cellml.Engine.Crash
 open Cellml
 
 /-- line-protocol loop: one answer per input line -/
@@ -50,6 +51,7 @@ def main (args : List String) : IO UInt32 := do
   | ["world"] => loop stdin stdout Engine.World.answer; return 0
   | ["flatten"] => loop stdin stdout Engine.Flatten.answer; return 0
   | ["purity"] => loop stdin stdout Engine.Purity.answer; return 0
+  | ["walk"] => loop stdin stdout Engine.Crash.answer; return 0
   | ["legacy"] => loop stdin stdout Engine.Legacy.answer; return 0
   | ["xml"] => loop stdin stdout Engine.Xml.answer; return 0
   | ["analyse"] => loop stdin stdout Engine.Analyse.answer; return 0
